@@ -269,7 +269,10 @@ package fun
 //@   requires ctx != nil
 //@   ensures recvready(ch) || done(ctx)
 
-//@ func (Operation).Launch$1
+// (the waiter is a WaitChannel closure on a channel created by this call: the
+// signal channel of the goroutine started here)
+//@ func (Operation).Launch
 //@   props C15
-//@   requires ctx != nil
-//@   ensures waited: recvready(sig) || done(ctx)
+//@   option noframe
+//@   requires wf != nil
+//@   ensures waiter: closureof(result, "WaitChannel$1") && fresh(closurevar(result, "ch"))
